@@ -456,6 +456,13 @@ def run_batch(cases: list[tuple[CaseRun, dict]], res: LoopResult, counters: dict
             res.samples.append({"cfg": cr.cfg.cfg_line(), "script": [list(s) for s in cr.script],
                                 "exchanges": [f"{r} => {a}" for (_, r, a) in cr.exchanges][:40],
                                 "results": [s.res for s in cr.steps]})
+        if cr.post_probe is not None:
+            counters["boundary"]["post-call probe " + cr.post_probe.split(":")[0]] += 1
+            if cr.post_probe != "admitted":
+                res.failures.append({"property": "C08", "kind": "violation", "sig": "C08/phantom-probe/" + cr.post_probe,
+                                     "detail": "no call is outstanding, recovery_timeout_s has elapsed, yet the next "
+                                               "call is not admitted: " + cr.post_probe + "; breaker " + cr.final_state,
+                                     "replay": cr.text, "meta": meta})
         if v.model_monitor_fail:
             # the model itself violates a monitor: a theorem is false or the monitor is wrong
             for (pid, name, k) in v.model_monitor_fail:
